@@ -34,7 +34,7 @@ def run_case(case):
     out = J.Outcome()
     spec, cfg = case["spec"], case["cfg"]
     m = M.RefEnum(spec)
-    rnd = random.Random(case["seed"])
+    rnd = J.case_rng(case)
     hists = [list(h) for h in case["hists"]] + [C.rand_history(rnd, m.n) for _ in range(16)] + [["l"], ["collect"]]
     sc = E.Script()
     C.sc_names(sc, 0, m, cfg, hists)
